@@ -178,6 +178,18 @@ fn open_and_read(archive: &[u8], idx: usize, pw: Option<&[u8]>) -> Result<Vec<u8
 /// The same with an archive reader that hands out at most `chunk` bytes per `read` call.
 fn open_and_read_chunked(archive: &[u8], idx: usize, pw: Option<&[u8]>, chunk: usize) -> Result<Vec<u8>, String> {
     let mut z = zip::ZipArchive::new(Short { inner: Cursor::new(archive), n: chunk }).map_err(|e| format!("open {}", zerr_class(&e)))?;
+    let first = open_once(&mut z, idx, pw);
+    // "each open behaves like the first": the same open again on the SAME archive object (state kept between
+    // opens - a cached data offset, a consumed reader position - must not change what an open sees)
+    let second = open_once(&mut z, idx, pw);
+    if first != second {
+        return Err(format!("reopen-differs(first={}|second={})", outcome(first).replace(' ', ":"), outcome(second).replace(' ', ":")));
+    }
+    first
+}
+
+/// One open of entry `idx` on an archive object that may have been used before, read to the end.
+fn open_once<R: Read + std::io::Seek>(z: &mut zip::ZipArchive<R>, idx: usize, pw: Option<&[u8]>) -> Result<Vec<u8>, String> {
     let mut f = match pw {
         None => z.by_index(idx).map_err(|e| zerr_class(&e))?,
         Some(p) => match z.by_index_decrypt(idx, p).map_err(|e| zerr_class(&e))? {
@@ -191,6 +203,32 @@ fn open_and_read_chunked(archive: &[u8], idx: usize, pw: Option<&[u8]>, chunk: u
         Err(e) => Err(ioerr_class(&e)),
     }
 }
+
+/// A sequence of opens of the encrypted entry on ONE archive object. Steps: `r` right password, `w` the
+/// wrong one, `n` no password (`by_index`), `b` no password through `by_name`, `x` the raw view
+/// (`by_index_raw`: the stored bytes), `p` the password on the plain neighbour. One outcome per step.
+fn reopen_run(ar: &Arch, pw: &[u8], wrong: &[u8], data: &[u8], raw: &[u8], seq: &str) -> String {
+    let mut z = match zip::ZipArchive::new(Cursor::new(&ar.bytes[..])) { Ok(z) => z, Err(e) => return format!("open {}", zerr_class(&e)) };
+    let mut outs: Vec<String> = vec![];
+    for step in seq.split(',') {
+        let o = match step {
+            "r" => same_or(open_once(&mut z, ar.pos, Some(pw)), data),
+            "w" => same_or(open_once(&mut z, ar.pos, Some(wrong)), data),
+            "n" => match open_once(&mut z, ar.pos, None) { Ok(_) => "opened".to_string(), Err(e) => e },
+            "b" => match z.by_name(enc_name(ar.pos)) { Ok(_) => "opened".to_string(), Err(e) => zerr_class(&e) },
+            "p" => same_or(open_once(&mut z, ar.plain_idx, Some(pw)), &ar.plain_data),
+            "x" => match z.by_index_raw(ar.pos) {
+                Err(e) => zerr_class(&e),
+                Ok(mut f) => { let mut b = vec![]; match f.read_to_end(&mut b) { Ok(_) => if b == raw { "raw".to_string() } else { "rawdiff".to_string() }, Err(e) => ioerr_class(&e) } }
+            },
+            _ => return "bad-op".into(),
+        };
+        outs.push(o.replace(' ', ":"));
+    }
+    outs.join("|")
+}
+
+const SEQS: [&str; 10] = ["r,r", "w,r", "r,w", "n,r", "r,x,r", "x,r,x", "b,r,n,r", "r,p,r", "w,w,r,r", "r,r,w,n,x,p,r"];
 
 fn outcome(r: Result<Vec<u8>, String>) -> String {
     match r {
@@ -483,7 +521,9 @@ impl Stream for Zc {
                   encrypted entry at every position) then read back with right / no / wrong password and with the password on a \
                   plain neighbour; the line carries the compressor's output and the codec table (direct library calls) from which \
                   the model WRITER builds the stored bytes and the model READER answers all four readings; a few cross-read by \
-                  CPython zipfile and Info-ZIP unzip; zc.fentry: archives produced at generation time by Info-ZIP zip (file and \
+                  CPython zipfile and Info-ZIP unzip; zc.reopen: the same cases as a SEQUENCE of opens on one ZipArchive (right twice; wrong then right; right \
+                  then wrong; none then right; raw views and the plain neighbour in between) - each open must behave like the \
+                  first; every other archive-level op also opens its entry twice and reports a difference; zc.fentry: archives produced at generation time by Info-ZIP zip (file and \
                   streamed input) and libarchive bsdtar when installed, with flags / CRC / DOS time / method / stored bytes from an \
                   independent central-directory walk for the model reader. distinct = distinct op lines; non-trivial = response is not an error".into();
         let mut r = super::rng_for(seed, "zc", 0);
@@ -613,6 +653,7 @@ impl Stream for Zc {
         let have_unzip = have("unzip");
         let mut n_py = 0;
         let mut n_unzip = 0;
+        let mut reopen_rot = 0usize;
         let mut arch_case = |g: &mut GenOut, r: &mut Rng, pw: &[u8], m: &str, n: usize| {
             let data = if r.chance(1, 4) { vec![b'A'; n] } else { r.bytes(n) };
             let cnt = r.range(2, 4);
@@ -634,7 +675,12 @@ impl Stream for Zc {
             if common && have_py && !pw.is_empty() && n_py < 12 && r.chance(1, 3) { x = " x=py".into(); n_py += 1; }
             else if common && have_unzip && ascii && n_unzip < 8 { x = " x=unzip".into(); n_unzip += 1; }
             if let Some(l) = arch_line(pw, m, cnt as usize, pos as usize, &data, &wrong, &x) {
+                // the same case as a SEQUENCE of opens on one archive object (rotating through the sequences)
+                let seq = SEQS[reopen_rot % SEQS.len()];
+                reopen_rot += 1;
+                let l2 = l.replacen("zc.arch ", "zc.reopen ", 1).replace(" x=py", "").replace(" x=unzip", "");
                 g.push(&format!("arch.{m}"), l);
+                g.push(&format!("reopen.{}", seq.replace(',', "")), format!("{l2} seq={seq}"));
             }
         };
         for (_, pw) in &pws {
@@ -762,6 +808,18 @@ impl Stream for Zc {
                     let wrong_s = same_or(wr, &data);
                     let plainpw = same_or(open_and_read(&ar.bytes, ar.plain_idx, Some(&pw)), &ar.plain_data);
                     format!("arch hdr={hdr} ct={ct} right={right} nopw={nopw} wrong={wrong_s} plainpw={plainpw}")
+                });
+                r.unwrap_or_else(|_| "panic".into())
+            }
+            "zc.reopen" => {
+                let (pw, data, wrong, cnt, pos) = match (h("pw"), h("data"), h("wrong"), n("n"), n("pos")) {
+                    (Some(p), Some(d), Some(w), Some(c), Some(q)) => (p, d, w, c as usize, q as usize), _ => return "bad-op".into() };
+                let m = match a.get("m").and_then(|s| METHODS.iter().find(|x| **x == s.as_str())) { Some(x) => *x, None => return "bad-op".into() };
+                let seq = match a.get("seq") { Some(s) if !s.is_empty() => s.clone(), _ => return "bad-op".into() };
+                let r = catch(move || {
+                    let ar = match build_arch(&pw, m, cnt, pos, &data) { Ok(x) => x, Err(e) => return format!("write {e}") };
+                    let raw = match raw_of(&ar.bytes, ar.pos) { Ok(x) => x, Err(e) => return format!("raw {e}") };
+                    format!("reopen {}", reopen_run(&ar, &pw, &wrong, &data, &raw, &seq))
                 });
                 r.unwrap_or_else(|_| "panic".into())
             }
@@ -897,6 +955,31 @@ impl Stream for Zc {
                         Ok(d) if d == data => {}
                         Ok(_) => fail(format!("{tool} decrypts the crate's entry to different bytes")),
                         Err(e) => fail(format!("{tool} cannot read the crate's encrypted entry: {e}")),
+                    }
+                }
+            }
+            "zc.reopen" => {
+                // each open behaves like the FIRST open of that kind on a fresh archive object
+                let (pw, data, wrong) = (h("pw"), h("data"), h("wrong"));
+                let m = a.get("m").cloned().unwrap_or_default();
+                let seq = a.get("seq").cloned().unwrap_or_default();
+                let ar = match build_arch(&pw, &m, n("n") as usize, n("pos") as usize, &data) { Ok(x) => x, Err(e) => { fail(format!("writer failed: {e}")); return f; } };
+                let raw = match raw_of(&ar.bytes, ar.pos) { Ok(x) => x, Err(e) => { fail(format!("raw bytes: {e}")); return f; } };
+                let got: Vec<&str> = resp.strip_prefix("reopen ").unwrap_or("").split('|').collect();
+                let steps: Vec<&str> = seq.split(',').collect();
+                if got.len() != steps.len() {
+                    fail(format!("reopen: {} outcomes for {} opens: `{}`", got.len(), steps.len(), &resp[..resp.len().min(120)]));
+                    return f;
+                }
+                for (i, (st, g1)) in steps.iter().zip(got.iter()).enumerate() {
+                    let fresh = reopen_run(&ar, &pw, &wrong, &data, &raw, st);
+                    if fresh != *g1 {
+                        fail(format!("open {} of {} (`{st}` in seq={seq}) on a used archive object gives `{g1}`, the same open on a fresh one `{fresh}`: each open must behave like the first", i + 1, steps.len()));
+                        break;
+                    }
+                    if *st == "r" && *g1 != "same" {
+                        fail(format!("open {} (`r`): the right password does not return the original bytes: `{g1}`", i + 1));
+                        break;
                     }
                 }
             }
